@@ -1397,6 +1397,58 @@ def _inline_hoisted(fn, rf, log, q):
     ast.fix_missing_locations(fn)
 
 
+def _inline_indexed_comprehensions(fn, rf, log, q):
+    """X = [E(v) for v in range(N)] used only as X[i]  ->  E(i)."""
+    ref_locs = set(rf.get('locals', []))
+    for _ in range(6):
+        params, locs = local_order(fn)
+        done = False
+        for x in locs:
+            if x in ref_locs:
+                continue
+            h = _single_assign(fn, x)
+            if h is None:
+                continue
+            blk, i, st = h
+            v = st.value
+            if not (isinstance(v, ast.ListComp) and len(v.generators) == 1
+                    and not v.generators[0].ifs and isinstance(
+                        v.generators[0].target, ast.Name) and isinstance(
+                            v.generators[0].iter, ast.Call) and
+                    _n(v.generators[0].iter.func) == 'range' and
+                    len(v.generators[0].iter.args) == 1):
+                continue
+            var = v.generators[0].target.id
+            uses = [n for n in _own_nodes(fn) if isinstance(n, ast.Name)
+                    and n.id == x and isinstance(n.ctx, ast.Load)]
+            subs = [n for n in _own_nodes(fn) if isinstance(n, ast.Subscript)
+                    and isinstance(n.value, ast.Name) and n.value.id == x
+                    and isinstance(n.ctx, ast.Load)]
+            if not uses or len(uses) != len(subs):
+                continue
+
+            class RC(ast.NodeTransformer):
+                def visit_Subscript(self, node):
+                    self.generic_visit(node)
+                    if isinstance(node.value, ast.Name) and \
+                            node.value.id == x and isinstance(node.ctx,
+                                                              ast.Load):
+                        e = _Subst({var: node.slice}).visit(
+                            copy.deepcopy(v.elt))
+                        return ast.copy_location(e, node)
+                    return node
+            for j in range(len(blk)):
+                if j != i:
+                    blk[j] = RC().visit(blk[j])
+            del blk[i]
+            log.append('%s: indexed comprehension %s inlined' % (q, x))
+            done = True
+            break
+        if not done:
+            break
+    ast.fix_missing_locations(fn)
+
+
 def _dissolve_built_locals(fn, rf, log, q):
     """`X = D; X[i] = ...; T = X`  ->  `T = D; T[i] = ...` for a local X the
     reference does not know (a container built in a local and stored)."""
@@ -1729,6 +1781,7 @@ def canonicalise(tree, modname, text=None):
         _orient_ifs(fn, rf, log, q)
         _loops_to_reference(fn, rf, log, q)
         _dissolve_built_locals(fn, rf, log, q)
+        _inline_indexed_comprehensions(fn, rf, log, q)
         _temps_and_names(fn, rf, log, q)
         _rehoist(fn, rf, log, q)
         _orient_ifs(fn, rf, log, q)
